@@ -43,6 +43,18 @@ def thm(m):
         return '| %s | %s |' % (m.group(1), n if n else m.group(2))
     except (OSError, ValueError):
         return m.group(0)
+# rows of the status table (12.3) from tools/design_status_rows.json when present
+try:
+    ROWS = json.load(open(os.path.join(VERIF, 'tools', 'design_status_rows.json')))
+except (OSError, ValueError):
+    ROWS = {}
+def row(m):
+    r = ROWS.get(m.group(1))
+    if not r:
+        return m.group(0)
+    esc = lambda t: str(t).replace('|', '\\|').replace('\n', ' ')
+    return '| %s | %s | %s | %s | %s |' % (m.group(1), m.group(2), esc(r['proved']), esc(r['partial']), esc(r['tie']))
+s = re.sub(r'^\| (C\d\d) \| (\d+) \| .* \| .* \| .* \|$', row, s, flags=re.M)
 s = re.sub(r'^\| (C\d\d) \| (\d+) \|', thm, s, flags=re.M)
 s = re.sub(r'Repaired defects: \d+', 'Repaired defects: %d' % nfix, s)
 s = put(s, 'SEEDED', tab)
